@@ -9,5 +9,5 @@ CONSTANTS
   L0 = "r1"
   PairSels = {"cur", "sl", "prev", "next", "pep", "first"}
   MaxOps = 16
-  MaxPend = 0
+  MaxPend = 3
 CHECK_DEADLOCK FALSE
